@@ -1392,8 +1392,32 @@ func init() {
 		if p == nil {
 			return g.mkError(S("json.RawMessage: UnmarshalJSON on nil pointer"), Iface{})
 		}
+		// *m = append((*m)[0:0], data...): the bytes are copied, and when *m already had an array
+		// (it held data before, or is an emptied slice of such data) that array is overwritten in place
+		data := g.asBlob(a[1])
+		if ob, ok := load(p).(*Blob); ok && ob != nil && (len(ob.Segs) > 0 || (ob.reuse && ob.bk != nil)) {
+			if ob.bk == nil {
+				g.run.nextObj++
+				ob.bk = &Backing{id: g.run.nextObj}
+				ob.bgen = ob.bk.gen
+			}
+			ob.bk.gen++
+			store(p, &Blob{Segs: data.Segs, bk: ob.bk, bgen: ob.bk.gen})
+			return Iface{}
+		}
+		if os, ok := load(p).(Slice); ok && cap(os) > 0 {
+			if bs, ok := data.ConcreteBytes(); ok {
+				// concrete bytes in a Go-level slice: append in place exactly as Go does
+				out := os[:0]
+				for _, c := range bs {
+					out = append(out, Int{C: uint64(c)})
+				}
+				store(p, out)
+				return Iface{}
+			}
+		}
 		if b, ok := a[1].(*Blob); ok && b != nil && b.bk != nil {
-			store(p, &Blob{Segs: b.Segs}) // append((*m)[0:0], data...) copies
+			store(p, &Blob{Segs: b.Segs})
 		} else {
 			store(p, a[1])
 		}
